@@ -111,7 +111,8 @@ def c14(work, tier, seed, replay):
     seqfam.settle(rep, "C14", tfails, tevents, {"Height": 8})
     rep.cov["feeder_proof_sweeps"] = dict(sweep, pairs="all 1 <= from < to <= %d plus samples to 2^20 (pixel: pairs only, its path format is only defined below tile index 1000)" % npairs)
     obs = [e for e in events if e["e"] == "omni.obs"]
-    rep.cov["evaluations"] = len(obs) + len(tevents)
+    rep.cov["distributor_puts_observed"] = sum(1 for e in events if e["e"] == "omni.put")
+    rep.cov["evaluations"] = len(obs) + len(tevents) + rep.cov["distributor_puts_observed"]
     rep.cov["traces_validated_against_impl"] = len(take)
     rep.cov["distinct_nontrivial"] = len({json.dumps([j["events"], j["store"], j["sigma"], j["types"]]) for j in jobs})
     waits = sorted(e["waitedms"] for e in obs if e["waitedms"] > 0)
